@@ -1,0 +1,26 @@
+//go:build verif
+
+package mcap
+
+// VerifSlotStats reports, for a MessageIterator created by Reader.Messages, the number of chunk
+// slots allocated, the number of slots currently holding unread messages, and the total capacity
+// of the slot buffers. ok is false when the iterator is not index-based. Read-only; compiled only
+// with the verif build tag.
+func VerifSlotStats(it MessageIterator) (slots int, live int, capBytes int, ok bool) {
+	ii, isIndexed := it.(*indexedMessageIterator)
+	if !isIndexed {
+		return 0, 0, 0, false
+	}
+	for i := range ii.chunkSlots {
+		if ii.chunkSlots[i].unreadMessages > 0 {
+			live++
+		}
+		capBytes += cap(ii.chunkSlots[i].buf)
+	}
+	return len(ii.chunkSlots), live, capBytes, true
+}
+
+// VerifLexerBufferCap reports the capacity of the lexer's chunk validation buffer.
+func VerifLexerBufferCap(l *Lexer) int {
+	return cap(l.uncompressedChunk)
+}
